@@ -66,49 +66,49 @@ def check_stream(text, toks, full, bad, ctx):
         # ---- spelling
         if kind in SPELL:
             if src != SPELL[kind]:
-                return bad('token_text_is_not_its_spelling', tok=tok, text=src)
+                return bad('token_text_is_not_its_spelling', tok=tok, tok_text=src)
         elif kind == 'Name':
             if src != tok['name']:
-                return bad('name_value_is_not_its_text', tok=tok, text=src)
+                return bad('name_value_is_not_its_text', tok=tok, tok_text=src)
         elif kind == 'Int':
             digits = src.replace('_', '')
             try:
                 v = int(digits, 0) if not re.fullmatch(r'0+', digits) else 0
             except ValueError:
-                return bad('int_token_text_is_not_a_number', tok=tok, text=src)
+                return bad('int_token_text_is_not_a_number', tok=tok, tok_text=src)
             if str(v) != tok['v']:
-                return bad('int_value_is_not_the_value_of_its_digits', tok=tok, text=src)
+                return bad('int_value_is_not_the_value_of_its_digits', tok=tok, tok_text=src)
         elif kind == 'Float':
             try:
                 v = float(src.replace('_', ''))
             except ValueError:
-                return bad('float_token_text_is_not_a_number', tok=tok, text=src)
+                return bad('float_token_text_is_not_a_number', tok=tok, tok_text=src)
             if fbits(v) != tok['v']:
-                return bad('float_value_is_not_the_value_of_its_digits', tok=tok, text=src)
+                return bad('float_value_is_not_the_value_of_its_digits', tok=tok, tok_text=src)
         elif kind == 'Complex':
             try:
                 v = complex(src.replace('_', ''))
             except ValueError:
-                return bad('complex_token_text_is_not_a_number', tok=tok, text=src)
+                return bad('complex_token_text_is_not_a_number', tok=tok, tok_text=src)
             if [fbits(v.real), fbits(v.imag)] != tok['v']:
-                return bad('complex_value_is_not_the_value_of_its_digits', tok=tok, text=src)
+                return bad('complex_value_is_not_the_value_of_its_digits', tok=tok, tok_text=src)
         elif kind == 'String':
             m = STRING_RE.match(src)
             if not m:
-                return bad('string_token_does_not_cover_prefix_and_quotes', tok=tok, text=src)
+                return bad('string_token_does_not_cover_prefix_and_quotes', tok=tok, tok_text=src)
             prefix, q, body = m.group(1).lower(), m.group(2), m.group(3)
             if PREFIX_KIND.get(prefix) != tok['kind'] or (len(q) == 3) != tok['triple']:
-                return bad('string_kind_or_triple_flag_wrong', tok=tok, text=src)
+                return bad('string_kind_or_triple_flag_wrong', tok=tok, tok_text=src)
             if fold_eol(body) != tok['value']:
-                return bad('string_value_is_not_its_inner_text', tok=tok, text=src)
+                return bad('string_value_is_not_its_inner_text', tok=tok, tok_text=src)
         elif kind == 'Newline':
             if src not in ('\n', '\r\n', '\r', ''):
-                return bad('newline_token_text', tok=tok, text=src)
+                return bad('newline_token_text', tok=tok, tok_text=src)
             if depth != 0:
                 return bad('NEWLINE_inside_brackets', at=a)
         elif kind == 'Indent':
             if src.strip(' \t\x0c') != '' or prev_kind not in ('Newline', None, 'Dedent', 'Indent', 'Comment', 'NonLogicalNewline'):
-                return bad('INDENT_not_at_line_start_or_not_whitespace', tok=tok, text=src, prev=prev_kind)
+                return bad('INDENT_not_at_line_start_or_not_whitespace', tok=tok, tok_text=src, prev=prev_kind)
             # its range is the line's leading whitespace: it starts right after a line break (or at the start of the text /
             # after a form feed) and ends where the first token of the line starts
             before = data[:a].decode('utf-8')
@@ -123,10 +123,10 @@ def check_stream(text, toks, full, bad, ctx):
                 return bad('DEDENT_without_INDENT', at=a)
         elif kind == 'Comment':
             if src != tok['v'] or not src.startswith('#') or '\n' in src or '\r' in src:
-                return bad('comment_token_text', tok=tok, text=src)
+                return bad('comment_token_text', tok=tok, tok_text=src)
         elif kind == 'NonLogicalNewline':
             if src not in ('\n', '\r\n', '\r'):
-                return bad('non_logical_newline_text', tok=tok, text=src)
+                return bad('non_logical_newline_text', tok=tok, tok_text=src)
         elif kind == 'EndOfFile':
             if a != b:
                 return bad('EOF_token_not_empty', range=[a, b])
